@@ -6,7 +6,7 @@ One JSON object per input line, one JSON object per output line.
 wire format
   value : null | true | false | <int> | "text" | {"f": "<float repr>"} | [v, ...] | {"d": [[k, v], ...]}
   node  : {"k":"leaf","ty":T,"req":b,"def":v?} | {"k":"group","whole":b,"fields":[[name,node],...]}
-        | {"k":"class","req":b,"classes":[[path,[[name,node],...]],...]} | {"k":"list","req":b,"item":node}
+        | {"k":"class","req":b,"imp":path?,"classes":[[path,[[name,node],...]],...]} | {"k":"list","req":b,"item":node}
         | {"k":"sub","req":b,"choices":[[name,[[name,node],...]],...]}
   ops   : {"op":"spec","fields":[[name,node],...],"load":[[text, value],...]}     sets the current parser + load oracle
           {"op":"validate","cfg":value}
@@ -93,7 +93,10 @@ partial def nodeOfJson (j : Json) : Except String Node := do
     pure (.group (jBool j "whole") fs)
   | "class" =>
     let cs ← (jArr j "classes").mapM choiceOfJson
-    pure (.classArg (jBool j "req") cs)
+    let imp := match j.getObjVal? "imp" with
+      | .ok (.str c) => some c
+      | _ => none
+    pure (.classArg (jBool j "req") imp cs)
   | "list" =>
     match j.getObjVal? "item" with
     | .ok it => do
